@@ -281,6 +281,57 @@ theorem C12_restart_equiv (st : St) (now tok : Nat) (hmd : ∀ t, st.mem t = st.
     · simp only [Option.filter, hexp, decide_false, Bool.not_false, if_true, if_false]
       constructor <;> intro _ <;> split <;> rfl
 
+/-! ### logout is two steps; other goroutines run in between -/
+
+/-- **Logout is final under every interleaving** (the order of the source: map
+entry first, file entry second).  Between the two steps of `removeSession`
+ANY history of other goroutines' operations may run — requests with the same
+or other cookies, logins, other logouts, clock advances; everything but a
+process restart — and after the second step ANY history at all, restarts
+included: no request with the logged-out token is authenticated, neither in
+between nor afterwards.  No time horizon, no assumption on the state except
+that the token had been issued. -/
+theorem C12_logout_final_interleaved (st : St) (now tok : Nat) (hissued : tok < st.nextTok)
+    (mid evs : List Ev) (hmid : noRestartEv mid = true) :
+    let s1 := logoutStep1 .memFirst st tok
+    let s2 := runM s1 now mid
+    let s3 := logoutStep2 .memFirst s2.1 tok
+    (∀ e ∈ traceM s1 now mid, e.2.1 = .request tok → e.2.2 = .auth false) ∧
+    (∀ e ∈ traceM s3 s2.2 evs, e.2.1 = .request tok → e.2.2 = .auth false) := by
+  intro s1 s2 s3
+  have h1 : MemGone s1 tok := ⟨hissued, by simp [s1, logoutStep1, logoutMem, FMap.erase]⟩
+  obtain ⟨h2, hmidOK⟩ := memGone_run tok mid s1 now h1 hmid
+  refine ⟨hmidOK, ?_⟩
+  have h3 : Stale s3 tok 0 := by
+    refine ⟨h2.1, ?_, ?_⟩
+    · intro s hs
+      have : s3.mem tok = none := h2.2
+      rw [this] at hs; cases hs
+    · intro s hs
+      simp [s3, logoutStep2, logoutFile, FMap.erase] at hs
+  exact stale_never_auth tok 0 evs s3 s2.2 h3 (timesGE_zero evs s2.2)
+
+/-- **The other order is not final** (file entry first, map entry second): a
+request with the same cookie that runs between the two steps on the first
+authenticated request of a UTC day prolongs the session and writes it back to
+the file the logout has just cleaned; after a restart the logged-out token
+authenticates again.  (TTL 2 days; login; a day later logout races with one
+request; restart; request.)  This is why the order of the two statements in
+`removeSession` is a checked fact of the tie (`C12.logoutorder`). -/
+theorem C12_file_first_logout_revives :
+    let t := 946684800 * nsPerSec
+    let st1 := (step (St.init 5 15 172800) t (.login ⟨0, none, false⟩ true 0)).2
+    let t' := t + 86400 * nsPerSec
+    (step (step (logoutRace .fileFirst st1 t' 0).2 t' .restart).2 t' (.request 0)).1 = .auth true ∧
+    (step (step (logoutRace .memFirst st1 t' 0).2 t' .restart).2 t' (.request 0)).1 = .auth false := by
+  decide
+
+/-- with the order of the source a racing request changes nothing: the race
+is the atomic logout, and the request is refused -/
+theorem C12_logout_race_is_logout (st : St) (now tok : Nat) :
+    logoutRace .memFirst st now tok = (false, logout st tok) := by
+  simp [logoutRace, logoutStep1, logoutStep2, logoutMem, logoutFile, logout, checkSession, FMap.erase]
+
 /-! ### the uint32 horizon (`expire` and the clock are `uint32` seconds) -/
 
 /-- **A wrapped expiry fails closed.**  If at a successful login
